@@ -241,10 +241,11 @@ def scalar_of(p, x):
         return float(v)
     if k == 'np':
         return np.float64(v)
+    # tensor scalars carry the operand's dtype: mixed-dtype algebra is outside every property
     if k == 't0':
-        return torch.tensor(float(v), dtype=torch.float64)
+        return torch.tensor(float(v), dtype=dt_of(x))
     if k == 't1':
-        return torch.tensor([float(v)], dtype=torch.float64)
+        return torch.tensor([float(v)], dtype=dt_of(x))
     if k == 'complex':
         return complex(v, 0.5)
     return float(v)
